@@ -19,6 +19,7 @@ type c13Stream struct {
 	Setup    [][]byte `json:"s,omitempty"` // sent first on a separate connection (builds key state)
 	Chunks   [][]byte `json:"c"`
 	RoleOnly bool     `json:"r,omitempty"` // the stream legitimately changes the node's role: only "no crash" is judged
+	Expect   int      `json:"e,omitempty"` // >0: number of reply bytes the attacker connection must receive
 }
 
 func c13Cfg() hapi.Config { return hapi.Config{FastKeys: 4, Concurrent: 1} }
@@ -70,6 +71,10 @@ func runStream(st *c13Stream) (viol *explore.Violation, obs string, engErr strin
 		a.Pump()
 		obs = fmt.Sprintf("attacker got %d bytes, closed=%v", len(a.In), a.Closed)
 		if st.RoleOnly {
+			return
+		}
+		if st.Expect > 0 && len(a.In) != st.Expect {
+			witnessMsg = fmt.Sprintf("the pipelined requests must be answered with %d bytes of replies, the connection received %d (closed=%v)", st.Expect, len(a.In), a.Closed)
 			return
 		}
 		// the witness connection must be unaffected: nothing unsolicited, unlock + lock still answered
@@ -463,8 +468,45 @@ type c13Arg struct {
 	To    int    `json:"t"`
 }
 
+// c13PipelineStreams: a batch of binary requests arriving in one read is answered through the connection's
+// 4096-byte reply buffer. For EVERY value-frame length 6..1100 the key is given a value of that length and a
+// batch of timeout-0 LOCKs (each answered TIMEOUT + the value) long enough to cross the buffer end is sent in one
+// write; likewise for batches mixing replies with and without a value.
+func c13PipelineStreams(quick bool) []c13Stream {
+	var out []c13Stream
+	for l := 0; l <= 1094; l++ {
+		val := protocol.NewLockCommandDataSetString(strings.Repeat("v", l)).Data
+		per := 64 + len(val)
+		n := 4160/per + 3
+		setup := wire.BinFrame(hapi.Cmd{Type: 1, Req: 1, Key: 50, Id: 1, Expried: 60, Data: val})
+		var batch []byte
+		for i := 0; i < n; i++ {
+			batch = append(batch, wire.BinFrame(hapi.Cmd{Type: 1, Req: byte(10 + i), Key: 50, Id: byte(10 + i), Expried: 5})...)
+		}
+		out = append(out, c13Stream{Name: fmt.Sprintf("pipeline/value%d/x%d", len(val), n), Setup: [][]byte{setup}, Chunks: [][]byte{batch}, Expect: n * per})
+		if l%7 == 0 {
+			// every second request goes to a key without a value (64-byte reply)
+			var mixed []byte
+			exp := 0
+			for i := 0; i < n+n/2; i++ {
+				k := byte(50)
+				exp += per
+				if i%2 == 1 {
+					k = 51 + byte(i)
+					exp += 64 - per
+				}
+				mixed = append(mixed, wire.BinFrame(hapi.Cmd{Type: 1, Req: byte(10 + i), Key: k, Id: byte(10 + i), Expried: 5})...)
+			}
+			out = append(out, c13Stream{Name: fmt.Sprintf("pipeline-mixed/value%d/x%d", len(val), n+n/2), Setup: [][]byte{setup}, Chunks: [][]byte{mixed}, Expect: exp})
+		}
+	}
+	return out
+}
+
 func c13Group(name string, quick bool) []c13Stream {
 	switch name {
+	case "pipeline":
+		return c13PipelineStreams(quick)
 	case "binary":
 		return c13BinaryStreams(quick)
 	case "text":
@@ -475,7 +517,7 @@ func c13Group(name string, quick bool) []c13Stream {
 
 func c13Cases(quick bool) []EnumCase {
 	var out []EnumCase
-	for _, g := range []string{"binary", "text", "split"} {
+	for _, g := range []string{"binary", "text", "split", "pipeline"} {
 		n := len(c13Group(g, quick))
 		chunk := 60
 		for f := 0; f < n; f += chunk {
